@@ -345,8 +345,9 @@ func evaluateOperatorValue(node *ExprNode, data map[string]any) (any, error) {
 		return nil, err
 	}
 
-	// If any operand is NULL, result is NULL
-	if leftIsNull || rightIsNull {
+	// If any operand is NULL, result is NULL. A nested arithmetic operator reports its NULL result
+	// as a nil value with isNull=false (see evaluateNodeValueWithNull), so nil counts as NULL too.
+	if leftIsNull || rightIsNull || left == nil || right == nil {
 		return nil, nil
 	}
 
